@@ -102,7 +102,7 @@ def cases(tier):
             for N in (2, 3):
                 for g in ("uniform", "geom"):
                     out.append(dict(kind="signal", d=dd, N=N, grid=g, method="Spline", width=1, M=1, combo="param", with_der=True))
-    for order in (1, 2, 3, 4):
+    for order in (0, 1, 2, 3, 4):
         for meth in ("SS", "MS", "DC"):
             for N in (2, 3):
                 out.append(dict(kind="chain", order=order, method=meth, N=N, M=2 if N == 2 else 1))
@@ -225,6 +225,16 @@ def run_chain(case):
         raised = True
     if not raised:
         vios.append(dict(sig="accepted:der-beyond-order", tags=tags, detail="der^%d of an order-%d control did not raise" % (k + 1, k)))
+    # ... and so does every expression that contains the piecewise-constant member (its derivative does not exist),
+    # whatever else the expression depends on (a state, explicit time)
+    u_ = chain[-1]
+    for name, e_ in (("u*x", u_ * x), ("t*u", ocp.t * u_), ("(1+t)*u", (1 + ocp.t) * u_), ("sin(t)*x*u", ca.sin(ocp.t) * x * u_), ("u+t", u_ + ocp.t), ("x+u", x + u_)):
+        try:
+            ocp.der(e_)
+            vios.append(dict(sig="accepted:der-of-control-expression", tags=tags, detail="der(%s) with u the piecewise-constant member of an order-%d control did not raise" % (name, k)))
+            break
+        except Exception:
+            pass
     for j in range(k):
         ocp.subject_to(ocp.at_t0(chain[j]) == 0.2 + 0.1 * j)
     ocp.add_objective(ocp.integral(x * x + 0.1 * chain[-1] ** 2))
@@ -300,6 +310,6 @@ def run_case(case):
 
 def describe(tier):
     return dict(
-        rule="(c) der and der(der) of B-spline parameters of order 1..4 sampled under SplineMethod vs the analytic spline derivative in physical time; (a) every expression AST up to depth %s over {x_0, x_1, y, t, global parameter, global variable} (unary sin/square/neg/affine, binary mul/add/sub, vector-valued) x 5 ODE models (time-dependent, two controls, no control, per-interval parameter and variable; global parameter AND variable in the rhs) x 3 generic points: ocp.der(e) = forward-mode dual-number derivative of e along (rhs, 1) computed by the reference's own arithmetic, again after the ODE is declared a second time (history: der, set_der, der); (b) controls of order 1..4 x method x N,M: der walks the chain (states, then the control), der^(k+1) raises, and at a dynamically feasible point every chain member sampled with refine=4 equals the Taylor polynomial built from the higher members" % ("3" if tier == "thorough" else "2"),
+        rule="(c) der and der(der) of B-spline parameters of order 1..4 sampled under SplineMethod vs the analytic spline derivative in physical time; (a) every expression AST up to depth %s over {x_0, x_1, y, t, global parameter, global variable} (unary sin/square/neg/affine, binary mul/add/sub, vector-valued) x 5 ODE models (time-dependent, two controls, no control, per-interval parameter and variable; global parameter AND variable in the rhs) x 3 generic points: ocp.der(e) = forward-mode dual-number derivative of e along (rhs, 1) computed by the reference's own arithmetic, again after the ODE is declared a second time (history: der, set_der, der); (b) controls of order 0..4 x method x N,M: der walks the chain (states, then the control), der^(k+1) raises and so does der of every expression from a 6-element alphabet containing the piecewise-constant member (with a state, with explicit time), and at a dynamically feasible point every chain member sampled with refine=4 equals the Taylor polynomial built from the higher members" % ("3" if tier == "thorough" else "2"),
         bound="AST depth %d; control order <=4" % (3 if tier == "thorough" else 2),
         assumptions=["CasADi Function evaluation is trusted", "B-spline signal derivatives use the scipy oracle of C17 (SplineMethod; under sampling methods der of a signal is a recorded finding of C17)"])
